@@ -11,9 +11,17 @@ for d in sorted(glob.glob(os.path.join(HERE, "seeded", "*"))):
         continue
     v = m.get("verified_by_lead", {})
     caught = ", ".join(v.get("caught_by", [])) or "**not caught**"
+    if m.get("check_tier") == "thorough":
+        caught += " (thorough tier)"
     notes = []
     for p, c in v.get("checks", {}).items():
-        notes += c.get("notes", [])[:1]
+        if c.get("exit") == 1:
+            notes += c.get("notes", [])[:1]
+    if m.get("obsolete"):
+        caught = "obsolete"
+        notes = [m["obsolete"]]
+    elif m.get("rebased"):
+        caught += " (re-applied after a fix)"
     summ = (m.get("summary", "") or "").replace("\n", " ").replace("|", "/")
     need = (m.get("needs_to_manifest", "") or "").replace("\n", " ").replace("|", "/")
     print(f"| {os.path.basename(d)} | {m.get('property')} | {summ[:150]} "
